@@ -143,11 +143,160 @@ impl PartialEq for TTok {
     }
 }
 
+
+/// what the interpreter needs from an output type: tracked constructors for every shape of value
+pub trait Tracked: Sized + Clone + std::fmt::Debug + 'static {
+    fn leaf(c: char) -> Self;
+    fn unit() -> Self;
+    fn pair(a: Self, b: Self) -> Self;
+    fn list(v: Vec<Self>) -> Self;
+    fn opt(o: Option<Self>) -> Self;
+    fn wrap(v: Self) -> Self;
+    fn num(n: usize) -> Self;
+    fn z() -> Self;
+    fn f() -> Self;
+    fn pred(&self) -> bool;
+    /// the items `into_iter()` iterates (each one tracked)
+    fn items(self) -> Vec<Self>;
+    fn size(&self) -> usize;
+    fn live() -> usize;
+    fn reset();
+}
+impl Tracked for TV {
+    fn leaf(c: char) -> TV {
+        TV::new(K::T(c))
+    }
+    fn unit() -> TV {
+        TV::new(K::U)
+    }
+    fn pair(a: TV, b: TV) -> TV {
+        TV::new(K::P(bx(a), bx(b)))
+    }
+    fn list(v: Vec<TV>) -> TV {
+        TV::new(K::L(v))
+    }
+    fn opt(o: Option<TV>) -> TV {
+        TV::new(K::O(o.map(bx)))
+    }
+    fn wrap(v: TV) -> TV {
+        TV::new(K::M(bx(v)))
+    }
+    fn num(n: usize) -> TV {
+        TV::new(K::N(n))
+    }
+    fn z() -> TV {
+        TV::new(K::Z)
+    }
+    fn f() -> TV {
+        TV::new(K::F)
+    }
+    fn pred(&self) -> bool {
+        pred(self)
+    }
+    fn items(self) -> Vec<TV> {
+        let TV { _g, k } = self;
+        match k {
+            K::L(v) => v,
+            o => vec![TV::new(o)],
+        }
+    }
+    fn size(&self) -> usize {
+        TV::size(self)
+    }
+    fn live() -> usize {
+        LIVE_V.with(|l| l.borrow().len())
+    }
+    fn reset() {
+        LIVE_V.with(|l| l.borrow_mut().clear());
+    }
+}
+
+thread_local! {
+    static LIVE_Z: Cell<i64> = const { Cell::new(0) };
+    static ZTICK: Cell<u64> = const { Cell::new(0) };
+}
+/// ZERO-SIZED tracked output with a destructor (a scope guard / permit token): `size_of::<Zg>() == 0`
+/// but `needs_drop::<Zg>()`.  Identity cannot be tracked, the live count can; a drop below zero is a
+/// double drop.  Every composite value consumes its parts and is itself one `Zg`.
+#[derive(Debug)]
+pub struct Zg;
+impl Zg {
+    fn new() -> Zg {
+        LIVE_Z.with(|l| l.set(l.get() + 1));
+        CREATED_V.with(|c| c.set(c.get() + 1));
+        Zg
+    }
+}
+impl Drop for Zg {
+    fn drop(&mut self) {
+        LIVE_Z.with(|l| {
+            if l.get() <= 0 {
+                BAD_DROPS.with(|b| b.set(b.get() + 1));
+            } else {
+                l.set(l.get() - 1);
+            }
+        });
+    }
+}
+impl Clone for Zg {
+    fn clone(&self) -> Zg {
+        Zg::new()
+    }
+}
+impl Tracked for Zg {
+    fn leaf(_: char) -> Zg {
+        Zg::new()
+    }
+    fn unit() -> Zg {
+        Zg::new()
+    }
+    fn pair(_: Zg, _: Zg) -> Zg {
+        Zg::new()
+    }
+    fn list(_: Vec<Zg>) -> Zg {
+        Zg::new()
+    }
+    fn opt(_: Option<Zg>) -> Zg {
+        Zg::new()
+    }
+    fn wrap(_: Zg) -> Zg {
+        Zg::new()
+    }
+    fn num(_: usize) -> Zg {
+        Zg::new()
+    }
+    fn z() -> Zg {
+        Zg::new()
+    }
+    fn f() -> Zg {
+        Zg::new()
+    }
+    /// a value carries no information: the predicate rejects every third call of this parse
+    fn pred(&self) -> bool {
+        ZTICK.with(|t| {
+            t.set(t.get() + 1);
+            t.get() % 3 != 0
+        })
+    }
+    fn items(self) -> Vec<Zg> {
+        vec![Zg::new(), Zg::new()]
+    }
+    fn size(&self) -> usize {
+        1
+    }
+    fn live() -> usize {
+        LIVE_Z.with(|l| l.get().max(0) as usize)
+    }
+    fn reset() {
+        LIVE_Z.with(|l| l.set(0));
+    }
+}
+
 // ---- interpreter ------------------------------------------------------------------------------------------------
 
 type I<'a> = &'a [TTok];
 type Ex<'a> = extra::Err<Rich<'a, TTok>>;
-type BP<'a> = Boxed<'a, 'a, I<'a>, TV, Ex<'a>>;
+type BP<'a, T> = Boxed<'a, 'a, I<'a>, T, Ex<'a>>;
 
 fn tk(c: char) -> TTok {
     TTok::new(c)
@@ -158,8 +307,8 @@ fn bx(v: TV) -> Box<TV> {
 
 pub fn supported(g: &G) -> bool {
     use G::*;
-    !g.any_node(&|x| matches!(x, Select(_) | ToSlice(_) | ToSpan(_) | Labelled(..) | MapErr(_) | Memo(_) | WithState(_) | Snd(_) | Fst(_) | MapUnit(_) | MapZ(_) | SliceWith(_) | SpanWith(_) | Mid(_) | Lazy(_) | NestedDelims(_) | WithCtx(..) | ThenWithCtx(..) | IgnoreWithCtx(..) | MapCtx(_) | JustCtx | RepCtx(_) | RepCtxMax(_) | TryRepCtx(_) | TryMapWith(_)))
-        && !g.any_node(&|x| matches!(x, Rep(_, _, Sink::Str | Sink::FoldlWith(_) | Sink::FoldrWith(_)) | SepBy(_, _, _, _, _, Sink::Str | Sink::FoldlWith(_) | Sink::FoldrWith(_))))
+    !g.any_node(&|x| matches!(x, Select(_) | ToSlice(_) | ToSpan(_) | Labelled(..) | MapErr(_) | Memo(_) | WithState(_) | Snd(_) | Fst(_) | MapUnit(_) | MapZ(_) | SliceWith(_) | SpanWith(_) | Mid(_) | Lazy(_) | NestedDelims(_) | WithCtx(..) | ThenWithCtx(..) | IgnoreWithCtx(..) | MapCtx(_) | JustCtx | RepCtx(_) | RepCtxMax(_) | TryRepCtx(_) | RepCtxPre(..) | TryMapWith(_)))
+        && !g.any_node(&|x| matches!(x, IntoIter(_, Sink::Str | Sink::FoldlWith(_) | Sink::FoldrWith(_)) | Rep(_, _, Sink::Str | Sink::FoldlWith(_) | Sink::FoldrWith(_)) | SepBy(_, _, _, _, _, Sink::Str | Sink::FoldlWith(_) | Sink::FoldrWith(_))))
 }
 
 macro_rules! with_bounds {
@@ -181,77 +330,87 @@ macro_rules! with_bounds {
     }};
 }
 
-fn apply_sink<'a, P>(p: P, sink: &Sink) -> BP<'a>
+fn apply_sink<'a, T: Tracked, P>(p: P, sink: &Sink) -> BP<'a, T>
 where
-    P: IterParser<'a, I<'a>, TV, Ex<'a>> + Parser<'a, I<'a>, (), Ex<'a>> + Clone + 'a,
+    P: IterParser<'a, I<'a>, T, Ex<'a>> + Parser<'a, I<'a>, (), Ex<'a>> + Clone + 'a,
 {
     match sink {
-        Sink::Vec => p.collect::<Vec<TV>>().map(|v| TV::new(K::L(v))).boxed(),
-        Sink::Count => p.count().map(|n| TV::new(K::N(n))).boxed(),
-        Sink::Bare => Parser::map(p, |()| TV::new(K::U)).boxed(),
-        Sink::Exactly(0) => p.collect_exactly::<[TV; 0]>().map(|a| TV::new(K::L(a.into()))).boxed(),
-        Sink::Exactly(1) => p.collect_exactly::<[TV; 1]>().map(|a| TV::new(K::L(a.into()))).boxed(),
-        Sink::Exactly(2) => p.collect_exactly::<[TV; 2]>().map(|a| TV::new(K::L(a.into()))).boxed(),
-        Sink::Exactly(3) => p.collect_exactly::<[TV; 3]>().map(|a| TV::new(K::L(a.into()))).boxed(),
-        Sink::Enumerate => p.enumerate().collect::<Vec<(usize, TV)>>().map(|v| TV::new(K::L(v.into_iter().map(|(i, x)| TV::new(K::P(bx(TV::new(K::N(i))), bx(x)))).collect()))).boxed(),
-        Sink::Foldl(init) => build(init).foldl(p, |acc, x| TV::new(K::P(bx(acc), bx(x)))).boxed(),
-        Sink::Foldr(init) => p.foldr(build(init), |x, acc| TV::new(K::P(bx(x), bx(acc)))).boxed(),
+        Sink::Vec => p.collect::<Vec<T>>().map(|v| T::list(v)).boxed(),
+        Sink::Count => p.count().map(|n| T::num(n)).boxed(),
+        Sink::Bare => Parser::map(p, |()| T::unit()).boxed(),
+        Sink::Exactly(0) => p.collect_exactly::<[T; 0]>().map(|a| T::list(a.into())).boxed(),
+        Sink::Exactly(1) => p.collect_exactly::<[T; 1]>().map(|a| T::list(a.into())).boxed(),
+        Sink::Exactly(2) => p.collect_exactly::<[T; 2]>().map(|a| T::list(a.into())).boxed(),
+        Sink::Exactly(3) => p.collect_exactly::<[T; 3]>().map(|a| T::list(a.into())).boxed(),
+        Sink::Enumerate => p.enumerate().collect::<Vec<(usize, T)>>().map(|v| T::list(v.into_iter().map(|(i, x)| T::pair(T::num(i), x)).collect())).boxed(),
+        Sink::Foldl(init) => build::<T>(init).foldl(p, |acc, x| T::pair(acc, x)).boxed(),
+        Sink::Foldr(init) => p.foldr(build::<T>(init), |x, acc| T::pair(x, acc)).boxed(),
         _ => panic!("unsupported sink"),
     }
 }
 
-pub fn build<'a>(g: &G) -> BP<'a> {
+pub fn build<'a, T: Tracked>(g: &G) -> BP<'a, T> {
     use G::*;
-    let tv = |t: TTok| TV::new(K::T(t.c));
+    let tv = |t: TTok| T::leaf(t.c);
     match g {
         Just(c) => just(tk(*c)).map(tv).boxed(),
         JustSeq(a, c) => {
             let (a, c) = (*a, *c);
-            just([tk(a), tk(c)]).map(move |_| TV::new(K::P(bx(TV::new(K::T(a))), bx(TV::new(K::T(c)))))).boxed()
+            just([tk(a), tk(c)]).map(move |_| T::pair(T::leaf(a), T::leaf(c))).boxed()
         }
         Any => any().map(tv).boxed(),
         OneOf(s) => one_of(s.chars().map(tk).collect::<Vec<_>>()).map(tv).boxed(),
         NoneOf(s) => none_of(s.chars().map(tk).collect::<Vec<_>>()).map(tv).boxed(),
-        End => end().map(|_| TV::new(K::U)).boxed(),
-        Empty => empty().map(|_| TV::new(K::U)).boxed(),
+        End => end().map(|_| T::unit()).boxed(),
+        Empty => empty().map(|_| T::unit()).boxed(),
         Custom(k, ok) => {
             let (k, ok) = (*k, *ok);
             custom(move |inp: &mut chumsky::input::InputRef<'a, '_, I<'a>, Ex<'a>>| {
                 let before = inp.cursor();
                 let mut held = vec![];
-                for _ in 0..k {
+                for _ in 0..(k % 10) {
+                    if k >= 10 {
+                        // peek() + skip(): the skipped token clone is dropped by the library
+                        match inp.peek() {
+                            Some(t) => held.push(T::leaf(t.c)),
+                            None => return Err(Rich::custom(inp.span_since(&before), "CU")),
+                        }
+                        inp.skip();
+                        continue;
+                    }
                     match inp.next() {
-                        Some(t) => held.push(TV::new(K::T(t.c))),
+                        Some(t) => held.push(T::leaf(t.c)),
                         None => return Err(Rich::custom(inp.span_since(&before), "CU")),
                     }
                 }
                 if ok {
-                    Ok(TV::new(K::L(held)))
+                    Ok(T::list(held))
                 } else {
                     Err(Rich::custom(inp.span_since(&before), "CU"))
                 }
             })
             .boxed()
         }
-        EmptyChoice => choice(Vec::<BP<'a>>::new()).boxed(),
-        Map(a) => build(a).map(|v| TV::new(K::M(bx(v)))).boxed(),
-        To(a) => build(a).to(TV::new(K::Z)).boxed(),
-        Ignored(a) => build(a).ignored().map(|_| TV::new(K::U)).boxed(),
-        Filter(a) => build(a).filter(pred).boxed(),
-        TryMap(a) => build(a).try_map(|v, span| if pred(&v) { Ok(v) } else { Err(Rich::custom(span, "TM")) }).boxed(),
-        OrNot(a) => build(a).or_not().map(|o| TV::new(K::O(o.map(bx)))).boxed(),
-        Not(a) => build(a).not().map(|_| TV::new(K::U)).boxed(),
-        Rewind(a) => build(a).rewind().boxed(),
-        Boxed(a) => build(a).boxed().boxed(),
-        Validate(a, _) => build(a)
+        EmptyChoice => choice(Vec::<BP<'a, T>>::new()).boxed(),
+        Map(a) => build::<T>(a).map(|v| T::wrap(v)).boxed(),
+        To(a) => build::<T>(a).to(T::z()).boxed(),
+        Ignored(a) => build::<T>(a).ignored().map(|_| T::unit()).boxed(),
+        Filter(a) => build::<T>(a).filter(|v: &T| v.pred()).boxed(),
+        TryMap(a) => build::<T>(a).try_map(|v: T, span| if v.pred() { Ok(v) } else { Err(Rich::custom(span, "TM")) }).boxed(),
+        OrNot(a) => build::<T>(a).or_not().map(|o| T::opt(o)).boxed(),
+        Not(a) => build::<T>(a).not().map(|_| T::unit()).boxed(),
+        Rewind(a) => build::<T>(a).rewind().boxed(),
+        Boxed(a) => build::<T>(a).boxed().boxed(),
+        Validate(a, _) => build::<T>(a)
             .validate(|v, e, em| {
                 em.emit(Rich::custom(e.span(), "V"));
                 v
             })
             .boxed(),
-        Rep(item, bd, sink) => with_bounds!(build(item).repeated(), bd, false, |q| apply_sink(q, sink)),
+        Rep(item, bd, sink) => with_bounds!(build::<T>(item).repeated(), bd, false, |q| apply_sink(q, sink)),
+        IntoIter(a, sink) => apply_sink(build::<T>(a).map(|v: T| v.items()).into_iter(), sink),
         SepBy(item, sep, bd, l, t, sink) => {
-            let mut p = build(item).separated_by(build(sep));
+            let mut p = build::<T>(item).separated_by(build::<T>(sep));
             if *l {
                 p = p.allow_leading();
             }
@@ -260,15 +419,15 @@ pub fn build<'a>(g: &G) -> BP<'a> {
             }
             with_bounds!(p, bd, false, |q| apply_sink(q, sink))
         }
-        Then(a, c) => build(a).then(build(c)).map(|(a, c)| TV::new(K::P(bx(a), bx(c)))).boxed(),
-        IgnoreThen(a, c) => build(a).ignore_then(build(c)).boxed(),
-        ThenIgnore(a, c) => build(a).then_ignore(build(c)).boxed(),
-        Or(a, c) => build(a).or(build(c)).boxed(),
-        AndIs(a, c) => build(a).and_is(build(c)).boxed(),
-        PaddedBy(a, p) => build(a).padded_by(build(p)).boxed(),
-        DelimitedBy(a, o, c) => build(a).delimited_by(build(o), build(c)).boxed(),
+        Then(a, c) => build::<T>(a).then(build::<T>(c)).map(|(a, c)| T::pair(a, c)).boxed(),
+        IgnoreThen(a, c) => build::<T>(a).ignore_then(build::<T>(c)).boxed(),
+        ThenIgnore(a, c) => build::<T>(a).then_ignore(build::<T>(c)).boxed(),
+        Or(a, c) => build::<T>(a).or(build::<T>(c)).boxed(),
+        AndIs(a, c) => build::<T>(a).and_is(build::<T>(c)).boxed(),
+        PaddedBy(a, p) => build::<T>(a).padded_by(build::<T>(p)).boxed(),
+        DelimitedBy(a, o, c) => build::<T>(a).delimited_by(build::<T>(o), build::<T>(c)).boxed(),
         Choice(k, v) => {
-            let mut ps: Vec<BP<'a>> = v.iter().map(build).collect();
+            let mut ps: Vec<BP<'a, T>> = v.iter().map(build::<T>).collect();
             match (k, ps.len()) {
                 (Coll::Vec, _) => choice(ps).boxed(),
                 (Coll::Tuple, 2) => {
@@ -293,48 +452,46 @@ pub fn build<'a>(g: &G) -> BP<'a> {
             }
         }
         Group(k, v) => {
-            let mut ps: Vec<BP<'a>> = v.iter().map(build).collect();
+            let mut ps: Vec<BP<'a, T>> = v.iter().map(build::<T>).collect();
             match (k, ps.len()) {
                 (Coll::Tuple, 2) => {
                     let c = ps.remove(1);
-                    group((ps.remove(0), c)).map(|(a, c)| TV::new(K::L(vec![a, c]))).boxed()
+                    group((ps.remove(0), c)).map(|(a, c)| T::list(vec![a, c])).boxed()
                 }
                 (Coll::Tuple, 3) => {
                     let d = ps.remove(2);
                     let c = ps.remove(1);
-                    group((ps.remove(0), c, d)).map(|(a, c, d)| TV::new(K::L(vec![a, c, d]))).boxed()
+                    group((ps.remove(0), c, d)).map(|(a, c, d)| T::list(vec![a, c, d])).boxed()
                 }
                 (Coll::Array, 2) => {
                     let c = ps.remove(1);
-                    group([ps.remove(0), c]).map(|a: [TV; 2]| TV::new(K::L(a.into()))).boxed()
+                    group([ps.remove(0), c]).map(|a: [T; 2]| T::list(a.into())).boxed()
                 }
                 (Coll::Array, 3) => {
                     let d = ps.remove(2);
                     let c = ps.remove(1);
-                    group([ps.remove(0), c, d]).map(|a: [TV; 3]| TV::new(K::L(a.into()))).boxed()
+                    group([ps.remove(0), c, d]).map(|a: [T; 3]| T::list(a.into())).boxed()
                 }
                 _ => panic!("group arity"),
             }
         }
-        Recover(a, f) => build(a).recover_with(via_parser(build(f).map(|v| TV::new(K::M(bx(v)))))).boxed(),
-        SkipUntil(a, s, u) => build(a).recover_with(skip_until(build(s).ignored(), build(u).ignored(), || TV::new(K::F))).boxed(),
-        Retry(a, s, u) => build(a).recover_with(skip_then_retry_until(build(s).ignored(), build(u).ignored())).boxed(),
+        Recover(a, f) => build::<T>(a).recover_with(via_parser(build::<T>(f).map(|v| T::wrap(v)))).boxed(),
+        SkipUntil(a, s, u) => build::<T>(a).recover_with(skip_until(build::<T>(s).ignored(), build::<T>(u).ignored(), || T::f())).boxed(),
+        Retry(a, s, u) => build::<T>(a).recover_with(skip_then_retry_until(build::<T>(s).ignored(), build::<T>(u).ignored())).boxed(),
         o => panic!("drops interpreter: unsupported node {o}"),
     }
 }
 
 // ---- the check -----------------------------------------------------------------------------------------------------
 
-fn live_v() -> usize {
-    LIVE_V.with(|l| l.borrow().len())
-}
 fn live_t() -> usize {
     LIVE_T.with(|l| l.borrow().len())
 }
 
 /// Returns Err(description) if the drop discipline is violated on this case.
-fn run_case<'a>(p: &BP<'a>, input: &'a [TTok]) -> Result<(bool, u64), String> {
-    let (v0, t0) = (live_v(), live_t());
+fn run_case<'a, T: Tracked>(p: &BP<'a, T>, input: &'a [TTok]) -> Result<(bool, u64), String> {
+    let (v0, t0) = (T::live(), live_t());
+    ZTICK.with(|t| t.set(0));
     BAD_DROPS.with(|b| b.set(0));
     let c0 = CREATED_V.with(|c| c.get());
     let res = catch_unwind(AssertUnwindSafe(|| {
@@ -342,7 +499,7 @@ fn run_case<'a>(p: &BP<'a>, input: &'a [TTok]) -> Result<(bool, u64), String> {
         let acc = r.has_output();
         // while the result is held: exactly the values reachable from the output are live
         let held = r.output().map(|o| o.size()).unwrap_or(0);
-        let lv = live_v() - v0;
+        let lv = T::live() - v0;
         let nerr_toks_ok = true;
         drop(r);
         (acc, held, lv, nerr_toks_ok)
@@ -355,8 +512,8 @@ fn run_case<'a>(p: &BP<'a>, input: &'a [TTok]) -> Result<(bool, u64), String> {
     if lv_held != held {
         return Err(format!("while the result was held {} values were live but the output contains {}", lv_held, held));
     }
-    if live_v() != v0 {
-        return Err(format!("{} output value(s) leaked by parse() (created {})", live_v() as i64 - v0 as i64, created));
+    if T::live() != v0 {
+        return Err(format!("{} output value(s) leaked by parse() (created {})", T::live() as i64 - v0 as i64, created));
     }
     if live_t() != t0 {
         return Err(format!("token clones not balanced after parse(): {} extra live", live_t() as i64 - t0 as i64));
@@ -364,7 +521,8 @@ fn run_case<'a>(p: &BP<'a>, input: &'a [TTok]) -> Result<(bool, u64), String> {
     if BAD_DROPS.with(|b| b.get()) != 0 {
         return Err("a value or token was dropped twice during parse()".into());
     }
-    // check mode
+    // check mode (the value-free predicate of the zero-sized flavour restarts its sequence)
+    ZTICK.with(|t| t.set(0));
     let res = catch_unwind(AssertUnwindSafe(|| {
         let r = p.check(input);
         let a = r.has_output();
@@ -379,8 +537,8 @@ fn run_case<'a>(p: &BP<'a>, input: &'a [TTok]) -> Result<(bool, u64), String> {
             }
         }
     }
-    if live_v() != v0 {
-        return Err(format!("{} output value(s) leaked by check()", live_v() as i64 - v0 as i64));
+    if T::live() != v0 {
+        return Err(format!("{} output value(s) leaked by check()", T::live() as i64 - v0 as i64));
     }
     if live_t() != t0 {
         return Err(format!("token clones not balanced after check(): {} extra live", live_t() as i64 - t0 as i64));
@@ -417,6 +575,9 @@ pub fn k_group() -> en::Class {
         Box::new(|a| Some(Rep(a, Bounds::new(2, None), Sink::Exactly(3)))),
         Box::new(|a| Some(Rep(a, Bounds::new(0, Some(1)), Sink::Exactly(2)))),
         Box::new(|a| if en::nn(&a) { Some(Rep(a, Bounds::new(1, Some(2)), Sink::Vec)) } else { None }),
+        // a collected list iterated again: a partly consumed iterator must drop its remaining items
+        Box::new(|a| Some(IntoIter(a, Sink::Exactly(1)))),
+        Box::new(|a| Some(IntoIter(a, Sink::Exactly(2)))),
     ];
     let binary: Vec<en::U2> = vec![
         Box::new(|a, c| Some(Group(Coll::Array, vec![*a, *c]))),
@@ -430,7 +591,7 @@ pub fn k_group() -> en::Class {
     en::Class { name: "Kgroup", leaves, unary, binary, ternary }
 }
 
-pub fn run_class(unit: &str, cname: &str, gs: &[G], alpha: &[char], len: usize, cx: &ShardCtx, only: Option<(&str, &str)>) -> UnitResult {
+pub fn run_class<T: Tracked>(unit: &str, cname: &str, gs: &[G], alpha: &[char], len: usize, cx: &ShardCtx, only: Option<(&str, &str)>) -> UnitResult {
     let mut r = UnitResult { name: unit.to_string(), exhaustive: true, ..Default::default() };
     let ins = en::inputs(alpha, len);
     let bufs: Vec<Vec<TTok>> = ins.iter().map(|s| s.iter().map(|c| TTok::new(*c)).collect()).collect();
@@ -446,8 +607,8 @@ pub fn run_class(unit: &str, cname: &str, gs: &[G], alpha: &[char], len: usize, 
             }
         }
         (cx.progress)(gi);
-        let v_before_build = live_v();
-        let p = build(g);
+        let v_before_build = T::live();
+        let p = build::<T>(g);
         for (ii, toks) in ins.iter().enumerate() {
             let iname: String = toks.iter().collect();
             if let Some((_, oi)) = only {
@@ -482,39 +643,47 @@ pub fn run_class(unit: &str, cname: &str, gs: &[G], alpha: &[char], len: usize, 
                         r.mismatches.push(json!({"engine": "drops", "unit": unit, "class": cname, "grammar": gname, "input": iname, "categories": ["drop_discipline"], "detail": why, "explained_by": []}));
                     }
                     // resynchronise the registries after a leak so that later cases are judged on their own
-                    LIVE_V.with(|l| l.borrow_mut().clear());
+                    T::reset();
                     BAD_DROPS.with(|b| b.set(0));
                 }
             }
         }
         drop(p);
         // parsers built with `to(..)` hold one value; it must go away with the parser
-        if live_v() != v_before_build {
-            LIVE_V.with(|l| l.borrow_mut().clear());
+        if T::live() != v_before_build {
+            T::reset();
         }
     }
     r.distinct_outcomes = distinct.len() as u64;
-    r.desc = format!("drop discipline, class {cname}: {} grammars x {} inputs over {:?} (length <= {len}) on &[tracked token]; registry-tracked outputs and tokens, parse and check: live values == size of the returned output while it is held, 0 after it is dropped, no value or token dropped twice, token clones balanced", gs.len(), ins.len(), alpha.iter().collect::<String>());
+    r.desc = format!("drop discipline, class {cname}{}: {} grammars x {} inputs over {:?} (length <= {len}) on &[tracked token]; registry-tracked outputs and tokens, parse and check: live values == size of the returned output while it is held, 0 after it is dropped, no value or token dropped twice, token clones balanced", if std::mem::size_of::<T>() == 0 { " with ZERO-SIZED outputs that have a destructor (live count instead of identities)" } else { "" }, gs.len(), ins.len(), alpha.iter().collect::<String>());
     r
 }
 
 pub fn run(unit: &str, tier: Tier, cx: &ShardCtx) -> UnitResult {
-    let cname = unit.strip_prefix("drops-").unwrap_or(unit);
+    let rest = unit.strip_prefix("drops-").unwrap_or(unit);
+    let (zst, cname) = match rest.strip_prefix("zst-") {
+        Some(c) => (true, c),
+        None => (false, rest),
+    };
     for (n, gs, alpha, len) in classes(tier) {
         if n == cname {
-            return run_class(unit, n, &gs, &alpha, len, cx, None);
+            return if zst { run_class::<Zg>(unit, n, &gs, &alpha, len, cx, None) } else { run_class::<TV>(unit, n, &gs, &alpha, len, cx, None) };
         }
     }
     panic!("unknown unit {unit}")
 }
 
 pub fn unit_names() -> Vec<&'static str> {
-    vec!["drops-k01", "drops-kext-recovery", "drops-k02-sinks", "drops-kgroup-deep"]
+    vec!["drops-k01", "drops-kext-recovery", "drops-k02-sinks", "drops-kgroup-deep", "drops-zst-k01", "drops-zst-kext-recovery", "drops-zst-k02-sinks", "drops-zst-kgroup-deep"]
 }
 
 pub fn replay(v: &Value) -> Result<Option<String>, String> {
     let unit = v["unit"].as_str().ok_or("no unit")?.to_string();
-    let cname = unit.strip_prefix("drops-").unwrap_or(&unit).to_string();
+    let rest = unit.strip_prefix("drops-").unwrap_or(&unit).to_string();
+    let (zst, cname) = match rest.strip_prefix("zst-") {
+        Some(c) => (true, c.to_string()),
+        None => (false, rest.clone()),
+    };
     let g = cvm::ast::parse_g(v["grammar"].as_str().ok_or("no grammar")?)?;
     let input: Vec<char> = v["input"].as_str().ok_or("no input")?.chars().collect();
     let progress = |_: usize| {};
@@ -528,6 +697,6 @@ pub fn replay(v: &Value) -> Result<Option<String>, String> {
     // run exactly this case: a one-grammar class over the input's own alphabet and length, filtered to the input
     let gname = g.to_string();
     let iname: String = input.iter().collect();
-    let r = run_class(&unit, &cname, &[g], &alpha, input.len(), &cx, Some((&gname, &iname)));
+    let r = if zst { run_class::<Zg>(&unit, &cname, &[g], &alpha, input.len(), &cx, Some((&gname, &iname))) } else { run_class::<TV>(&unit, &cname, &[g], &alpha, input.len(), &cx, Some((&gname, &iname))) };
     Ok(r.mismatches.first().map(|m| m["detail"].as_str().unwrap_or("").to_string()))
 }
